@@ -281,6 +281,9 @@ def C03(tier):
         dict(name="quantile_frame", family="quant", trace="Trace_Quant", profile="dev", gen=dict(count=(2500, 25000))),
         dict(name="nan_frame", family="nan", trace="Trace_Nan", trace_constants=FIX3, profile="dev", gen=dict(count=(2500, 25000))),
         dict(name="qskip_frame", family="minmax", trace="Trace_MinMax", profile="dev", gen=dict(count=(2000, 20000), params={"kinds": "qskip"})),
+        # an element whose comparisons panic: the lane after the unwinding still holds every element exactly once
+        dict(name="sort_panicking_comparisons", family="sort", trace="Trace_Sort", trace_constants=FIX, profile="dev", chunk=3000,
+             gen=dict(count=(1500, 10000), params={"kinds": "poison", "oor_den": "0"})),
         dict(name="sort_frame_long_lanes", family="sort", trace="Trace_Sort", trace_constants=FIX, profile="dev", chunk=40,
              gen=dict(count=(240, 2400), params={"oor_den": "0", "long": "1"}), params={"frame": "1"}),
     ]
